@@ -114,6 +114,8 @@ def run(tier):
     for i in range(0, len(safe), chunk):
         p.push(safe[i:i + chunk], "s%d" % (i // chunk), ["--batch", "3000"])
 
+    is_silent = lambda s: s.get("kind") == "unreach" and s["m"]["quote"] == "own"
+    expected_silent -= sum(1 for c in p.candidates if c[2] == "crash" and is_silent(c[0]))     # a dead scenario leaves no execution
     if p.stats["oracle_silent"] != expected_silent:
         raise vlib.ToolFailure("the driver did not build what the generator asked for: %d executions skipped by MirrorTrace, "
                                "%d expected (ICMP errors quoting the request itself)" % (p.stats["oracle_silent"], expected_silent))
